@@ -59,6 +59,9 @@ class Engine(InterpMixin, AttrMixin):
         from . import stdlib_model
 
         stdlib_model.install(self)
+        from . import fsmodel
+
+        fsmodel.install(self)
 
     # ------------------------------------------------------------------ paths
     def _reset_path(self):
@@ -74,6 +77,10 @@ class Engine(InterpMixin, AttrMixin):
         self.fresh_n = 0
         self.call_depth = 0
         self.loop_counter = {}
+        self.held_locks = []
+        if hasattr(self, "ghost_fs"):
+            from .fsmodel import GhostFS
+            self.ghost_fs = GhostFS(self)
 
     def fresh(self, base, sort):
         self.fresh_n += 1
@@ -417,8 +424,23 @@ class Engine(InterpMixin, AttrMixin):
                 raise self.pyraise(TypeError, "enum member not callable")
             return self.call(BoundMethod(c, f), args, kwargs)
         if callable(f):
+            slf = getattr(f, "__self__", None)
+            if isinstance(slf, str) and any(self.contains_symbolic(a) for a in args):
+                return self.str_method(slf, f.__name__, args, kwargs)
             return f(*args, **kwargs)
         raise Unsupported(f"call of {f!r}")
+
+    def str_method(self, s, name, args, kwargs):
+        """methods of a concrete str called with symbolic arguments"""
+        if name == "join":
+            parts = self.iterate(args[0])
+            out = None
+            for i, p in enumerate(parts):
+                if not isinstance(p, (str, SymStr)):
+                    raise self.pyraise(TypeError, "sequence item: expected str instance")
+                out = p if out is None else out + s + p
+            return "" if out is None else out
+        raise Unsupported(f"str.{name} with symbolic arguments")
 
     def bind_args(self, f, args, kwargs):
         a = f.node.args
